@@ -72,6 +72,10 @@ def micro_cases(tier):
 
 
 CORPUS_EXTRA = [
+    # user-defined compiler whose option has a default pass list: a command WITHOUT the option, analysed after
+    # one WITH it, must not inherit the other's passes (process-wide config._compilers cache)
+    ["cli", [[["src", "a.c"], [["Code"]]], [["src", "b.c"], [["If", ["Eq", "V1", 2]], ["Code"], ["Endif"], ["Code"]]]],
+     [["P0", [[["src", "a.c"], [], [], [], 2]]], ["P1", [[["src", "b.c"], [], [], [], 0]]]], 6],
     # a.c defines X, b.c tests it: with a hoisted Platform the second command sees the first one's macro
     ["lib", [[["src", "a.c"], [["Def", "F0", "E"], ["Code"]]], [["src", "b.c"], [["If", ["Defd", "F0"]], ["Code"], ["Endif"]]]],
      [["P0", [[["src", "a.c"], [], [], []], [["src", "b.c"], [], [], []]]]], 1],
@@ -117,6 +121,12 @@ class C08(Check):
     def gen_case(self, kind, wild=False):
         files, mains, names = U.gen_files(self.rng, wild)
         cfg = U.gen_cfg(self.rng, mains, names)
+        if kind == "cli":
+            # some commands use the user-defined multi-pass compiler of .cbi/config
+            for _, es in cfg:
+                for e in es:
+                    if self.rng.random() < 0.3:
+                        e.append(self.rng.choice([0, 1, 2, 2]))
         if wild and self.rng.random() < 0.4:
             # break the nesting of one file
             f = self.rng.choice(files)
@@ -142,7 +152,7 @@ class C08(Check):
 
     def encode(self, case):
         kind, files, cfg, seed = case
-        return enc([[[p, ls] for p, ls in files], U.weights_of(files), cfg])
+        return enc([[[p, ls] for p, ls in files], U.weights_of(files), U.expand_cfg(cfg)])
 
     # ---- implementation ----
     def impl(self, case):
@@ -202,6 +212,11 @@ class C08(Check):
     def impl_cli(self, files, cfg, seed):
         root = common.scratch() / "c08cli"
         U.materialise(files, root, U.DIRS)
+        U.write_user_config(root)
+        # every case starts like a fresh process (so that a replay is self-contained); all the CLI runs
+        # of one case then share the process-wide config._compilers cache
+        import codebasin.config as cbconfig
+        cbconfig._compilers = None
         U.write_cli_inputs(root, cfg, seed, shuffle=bool(seed & 1))
         names = [p for p, _ in cfg]
         rng = random.Random(seed)
